@@ -358,6 +358,12 @@ def ext_shape(job_state, ext):
     return "+".join(parts)
 
 
+def resume_sig(shape, remarked):
+    if remarked and "marks" in shape:
+        return "jobs resume wrong-result reading marks after an earlier resume set marks"
+    return "jobs resume wrong-result reading %s" % shape
+
+
 def rows_vs_direct(rows, direct):
     if direct is None or direct.get("err") or direct.get("panic"):
         return None
@@ -370,7 +376,7 @@ def rows_vs_direct(rows, direct):
 
 def judge(pool, states, hist, obs):
     """-> None or (signature, what, step index): the FIRST answer of the real code that Jobs.tla does not allow"""
-    fin, restarted, info = {}, {}, {}
+    fin, restarted, info, remarked = {}, {}, {}, {}
     for k, e in enumerate(hist):
         if k >= len(obs):
             raise Inconclusive("harness answered %d of %d calls" % (len(obs), len(hist)))
@@ -458,16 +464,16 @@ def judge(pool, states, hist, obs):
             if ent.sid >= 0:
                 ok, kind = travcmp.allowed(states[ent.sid], rows)
                 if not ok:
-                    if after and not rows and fin.get(j):
-                        return ("jobs restart job-missing", "no rows after the restart", k)
-                    return ("jobs resume %s reading %s" % (kind, shape),
-                            "%s resumed with %s is not an admissible result of the concatenated traversal (%s)" % (ops(info[j].prog), ops(ext), ty), k)
+                    return (resume_sig(shape, remarked.get(j)),
+                            "%s resumed with %s is not an admissible result of the concatenated traversal (%s, %s)" % (ops(info[j].prog), ops(ext), ty, kind), k)
             jst = states[info[j].sid] if info[j].sid >= 0 else None
             if (ent.sid < 0 or not states[ent.sid].get("blocks")) and not (jst and jst.get("blocks")):
                 d = rows_vs_direct(rows, o.get("direct"))
                 if d:
-                    return ("jobs resume differs-from-direct-run %s reading %s" % (d, shape),
-                            "%s resumed with %s differs from the direct run (%s)" % (ops(info[j].prog), ops(ext), ty), k)
+                    return (resume_sig(shape, remarked.get(j)),
+                            "%s resumed with %s differs from the direct run (%s, %s)" % (ops(info[j].prog), ops(ext), ty, d), k)
+            if any(st["op"] == "as" for st in ext):
+                remarked[j] = True
         elif op == "search":
             if o.get("err"):
                 return ("jobs search error", short(o["err"]), k)
@@ -510,6 +516,7 @@ def judge(pool, states, hist, obs):
         elif op == "restart":
             for x in fin:
                 restarted[x] = True
+            remarked.clear()
     return None
 
 
@@ -713,11 +720,20 @@ def run(ctx):
     lo = pb.extend(sts)
     leafs = [i for i in range(lo, len(states)) if states[i]["status"] == "ok" and jkey(states[i]["g"], states[i]["prog"]) not in pb.kids]
     ncur = 0
-    for i in leafs:
-        p = pb.pool_for(i)
-        if p:
-            pools.append(p)
-            src.append("scaled" if states[i]["g"] > NFAMILY else "curated")
+    groups = {}
+    for i in leafs:                                    # programs that share their first two statements form one pool
+        groups.setdefault(jkey(states[i]["g"], states[i]["prog"][:2]), []).append(i)
+    for k in sorted(groups):
+        merged, have = [], set()
+        for i in groups[k]:
+            for e in pb.pool_for(i) or []:
+                ek = jkey(e.g, e.prog)
+                if ek not in have:
+                    have.add(ek)
+                    merged.append(e)
+        if merged:
+            pools.append(merged)
+            src.append("scaled" if states[groups[k][0]]["g"] > NFAMILY else "curated")
             ncur += 1
     ctx.log("curated+scaled: star sizes %s, %d traversal states, %d pools" % (sizes, len(sts), ncur))
     camp = Campaign("jobs", graphs, states, pools, pb)
